@@ -122,4 +122,8 @@ def generate():
     items.append(str_list_def("stmts_do_allocate_already_aligned", statements(function_body(hdr, hq + r"do_allocate_already_aligned\s*\("))))
     items.append(str_list_def("stmts_get_destroy_task", statements(function_body(hdr, hq + r"get_destroy_task\s*\("))))
     items.append(str_list_def("stmts_register_destructor", statements(function_body(hdr, hq + r"register_destructor\s*\(\s*void\s*\*"))))
+    # shared / swiss variants: release = destruct_all on every per-thread resource, then release on every one
+    items.append(str_list_def("stmts_shared_release", statements(function_body(cpp, r"SharedMonotonicBufferResource::release\s*\("))))
+    items.append(str_list_def("stmts_swiss_release", statements(function_body(cpp, r"SwissMemoryResource::release\s*\("))))
+    items.append(str_list_def("stmts_shared_do_allocate", statements(function_body(cpp, r"SharedMonotonicBufferResource::do_allocate\s*\("))))
     emit("Arena", items, opens=(), imports=())
